@@ -18,6 +18,7 @@ import (
 	"sort"
 	"strings"
 	"sync"
+	"sync/atomic"
 	"time"
 
 	mail "github.com/wneessen/go-mail"
@@ -29,6 +30,29 @@ import (
 func init() {
 	register("C09", "exploration", runC09)
 	childHandlers["c09"] = c09Child
+	childHandlers["c09one"] = c09ChildOne
+}
+
+// c09ChildOne: vcheck child c09one <seed> <idx> <budget seconds> - parses one input, prints its outcome class.
+func c09ChildOne(args []string) int {
+	if len(args) < 3 {
+		return 2
+	}
+	var seed int64
+	var idx, budget int
+	fmt.Sscan(args[0], &seed)
+	fmt.Sscan(args[1], &idx)
+	fmt.Sscan(args[2], &budget)
+	data, reader, _ := c09Input(seed, idx)
+	done := make(chan c09Outcome, 1)
+	go func() { done <- c09ParseNoWatchdog(data, reader) }()
+	select {
+	case o := <-done:
+		fmt.Printf("C09ONE %s %d\n", o.Class, o.Duration.Milliseconds())
+	case <-time.After(time.Duration(budget) * time.Second):
+		fmt.Printf("C09ONE hang %d\n", budget*1000)
+	}
+	return 0
 }
 
 type c09Case struct {
@@ -386,9 +410,17 @@ type c09Outcome struct {
 	Duration time.Duration
 }
 
-const c09PerInputWatchdog = 30 * time.Second
+const c09PerInputWatchdog = 10 * time.Second
+
+func c09ParseNoWatchdog(data []byte, reader string) c09Outcome {
+	return c09ParseW(data, reader, 0)
+}
 
 func c09Parse(data []byte, reader string) (out c09Outcome) {
+	return c09ParseW(data, reader, c09PerInputWatchdog)
+}
+
+func c09ParseW(data []byte, reader string, watchdog time.Duration) (out c09Outcome) {
 	done := make(chan c09Outcome, 1)
 	start := time.Now()
 	go func() {
@@ -428,11 +460,16 @@ func c09Parse(data []byte, reader string) (out c09Outcome) {
 			o = c09Outcome{Class: "ok"}
 		}
 	}()
+	if watchdog <= 0 {
+		o := <-done
+		o.Duration = time.Since(start)
+		return o
+	}
 	select {
 	case o := <-done:
 		o.Duration = time.Since(start)
 		return o
-	case <-time.After(c09PerInputWatchdog):
+	case <-time.After(watchdog):
 		return c09Outcome{Class: "hang", Duration: time.Since(start)}
 	}
 }
@@ -533,7 +570,7 @@ func runC09(r *ev.Run, rep *ev.ReplayDoc) ev.Summary {
 	sum := ev.Summary{
 		Rule: "inputs = seed corpus (repo EML fixtures, normalised renderings of 24 builder shapes, hand-written multiparts) and structure-aware mutations of them (parameter values emptied/re-quoted/unbalanced/oversized, parameter shapes, header lines deleted/duplicated/truncated/emptied/folded, transfer-encoding / content-type / disposition swaps, boundary lines removed/duplicated/unclosed, nesting up to depth 200 incl. self-referential boundaries, corrupted encoded bodies, bit flips, inserts/deletes, splices, truncation, line-ending rewrites, random bytes, address/date corruption), 1-3 operators per input; entry points EMLToMsgFromString / FromReader (plain, 1-byte, data+EOF, zero-length reads, failing at an offset) / FromFile. Batches run in child processes; a dead child is bisected down to the input. non-trivial = mutated input; distinct by (operators, reader, outcome class)",
 		Assumptions: []string{
-			"termination is judged with a 30 s per-input watchdog (inputs are < 64 KiB and parse in microseconds); a hang is re-run alone with 120 s before it is reported",
+			"termination is judged with a 10 s per-input watchdog (inputs are < 64 KiB and parse in micro- to milliseconds); a hang is re-run alone in its own process with 60 s before it is reported; after 3 confirmed hangs the remaining inputs are skipped",
 			"a fatal runtime error (stack exhaustion, out of memory) kills the child process and counts as a violation for the journaled input",
 		},
 		Floors: []ev.Floor{{Counter: "inputs_parsed", Min: 20000}, {Counter: "outcome_ok", Min: 200}, {Counter: "outcome_error", Min: 1000}, {Counter: "mutation_operators", Min: 14}},
@@ -568,8 +605,13 @@ func runC09(r *ev.Run, rep *ev.ReplayDoc) ev.Summary {
 	ops := map[string]int{}
 	readers := map[string]int{}
 	errClasses := map[string]int{}
+	var hangsConfirmed int32
 	var runRange func(start, count, depth int)
 	runRange = func(start, count, depth int) {
+		if atomic.LoadInt32(&hangsConfirmed) >= 3 {
+			r.Count("ranges_skipped_after_confirmed_hangs", 1)
+			return
+		}
 		journal := filepath.Join(os.TempDir(), fmt.Sprintf("verif-c09-journal-%d-%d", os.Getpid(), start))
 		defer os.Remove(journal)
 		cmd := exec.Command(exe, "child", "c09", fmt.Sprint(r.Seed), fmt.Sprint(start), fmt.Sprint(count))
@@ -607,13 +649,18 @@ func runC09(r *ev.Run, rep *ev.ReplayDoc) ev.Summary {
 				data, reader, opsS := c09Input(r.Seed, v.Idx)
 				c := c09Case{InputB64: base64.StdEncoding.EncodeToString(data), Reader: reader, Ops: opsS}
 				if v.Class == "hang" {
-					// re-run alone with a larger budget
-					o := c09ParseBudget(data, reader, 120*time.Second)
-					if o.Class != "hang" {
-						r.Inconclusive(fmt.Sprintf("input %d exceeded the 30 s watchdog once but finished in %v when re-run alone", v.Idx, o.Duration))
+					// re-run alone, in a process of its own that can be killed, with a larger budget
+					if atomic.LoadInt32(&hangsConfirmed) >= 3 {
+						r.Count("further_hangs_not_reconfirmed", 1)
 						continue
 					}
-					r.Violate(ev.Violation{Key: "hang:" + opsS, What: fmt.Sprintf("EML parsing of a %d-byte input did not terminate within 120 s", len(data)), Case: c})
+					cls := c09ConfirmHang(exe, r.Seed, v.Idx, 60)
+					if cls != "hang" {
+						r.Inconclusive(fmt.Sprintf("input %d exceeded the %v watchdog once but ended as %q when re-run alone", v.Idx, c09PerInputWatchdog, cls))
+						continue
+					}
+					atomic.AddInt32(&hangsConfirmed, 1)
+					r.Violate(ev.Violation{Key: "hang:" + hangClass(opsS), What: fmt.Sprintf("EML parsing of a %d-byte input did not terminate within 60 s (re-run alone in its own process)", len(data)), Case: c})
 					continue
 				}
 				r.Violate(ev.Violation{Key: "panic:" + v.Site, What: "EML parsing panicked: " + ev.Trunc(v.Detail, 300), Case: c, Observed: v.Detail})
@@ -685,17 +732,33 @@ func runC09(r *ev.Run, rep *ev.ReplayDoc) ev.Summary {
 	return sum
 }
 
-func c09ParseBudget(data []byte, reader string, d time.Duration) c09Outcome {
-	done := make(chan c09Outcome, 1)
-	go func() { done <- c09Parse(data, reader) }()
-	select {
-	case o := <-done:
-		if o.Class == "hang" {
-			// c09Parse's own watchdog fired; wait for the rest of the budget
-			time.Sleep(d - c09PerInputWatchdog)
-		}
-		return o
-	case <-time.After(d):
-		return c09Outcome{Class: "hang"}
+// c09ConfirmHang re-runs one input in a child process with a budget (seconds); the child is killed afterwards.
+func c09ConfirmHang(exe string, seed int64, idx, budget int) string {
+	cmd := exec.Command(exe, "child", "c09one", fmt.Sprint(seed), fmt.Sprint(idx), fmt.Sprint(budget))
+	var outb bytes.Buffer
+	cmd.Stdout = &outb
+	if err := cmd.Start(); err != nil {
+		return "error"
 	}
+	done := make(chan error, 1)
+	go func() { done <- cmd.Wait() }()
+	select {
+	case <-done:
+	case <-time.After(time.Duration(budget+15) * time.Second):
+		_ = cmd.Process.Kill()
+		<-done
+		return "hang"
+	}
+	for _, line := range strings.Split(outb.String(), "\n") {
+		if strings.HasPrefix(line, "C09ONE ") {
+			return strings.Fields(line)[1]
+		}
+	}
+	return "error"
+}
+
+// hangClass keeps the key of a hang stable: the first mutation operator.
+func hangClass(ops string) string {
+	op, _, _ := strings.Cut(ops, "+")
+	return op
 }
